@@ -28,7 +28,7 @@ import contracts.c09_labels  # noqa: F401  (registration order, see above)
 import contracts.c08_mps as c08
 import contracts.c11_tebd as c11
 from vf.pyvc import (And, Contract, I, If, Implies, Loop, Max, Min, NS, Not, Opaque, Or, PathEnd, PyRaise, R, Ref, StarArg,
-                     Unsupported, Z, is_int, is_z3, register, REGISTRY, assigned_names, load_function, num_cmp)
+                     Unsupported, Z, has_quantifier, is_int, is_z3, register, REGISTRY, assigned_names, load_function, num_cmp)
 
 DM = "quimb/tensor/tn1d/dmrg.py"
 T1 = "quimb/tensor/tn1d/core.py"
@@ -186,6 +186,20 @@ def me_inv(f, begin, pos=None):
 def envs_unchanged_except(f, p, k0):
     return forall_sites(Implies(K != k0, And(sel(f["e_has"], K) == sel(p["e_has"], K),
                                              *[sel(f["e_" + c], K) == sel(p["e_" + c], K) for c in ENV_COMPONENTS])))
+
+
+def oblige_structural(cx, label, kind, ok, line):
+    """a python-level (structural) condition.  When it is violated the obligation is emitted WITHOUT the quantified part of
+    the path condition (fewer assumptions: sound), so that it is decided `failed` with a model instead of `unknown`"""
+    if ok:
+        cx.oblige(label, kind, True, line)
+        return
+    saved = cx.pc
+    cx.pc = [a for a in saved if not has_quantifier(Z(a))]
+    try:
+        cx.oblige(label, kind, False, line)
+    finally:
+        cx.pc = saved
 
 
 class MEContract(c11.SeqMixin, Contract):
@@ -699,8 +713,8 @@ class Move(MEContract):
     def apply(self, cx, a, node, case=None):
         f = cx.fields(a.self)
         nm = self.target.split(".")[-1]
-        cx.oblige(f"call-pre@{node.lineno}:{nm}:environment was begun at the {self.begin} (moves away from the begin side)",
-                  "call-pre", f.get("begin") == self.begin, node.lineno)
+        oblige_structural(cx, f"call-pre@{node.lineno}:{nm}:environment was begun at the {self.begin} (moves away from the "
+                          "begin side)", "call-pre", f.get("begin") == self.begin, node.lineno)
         cx.oblige(f"call-pre@{node.lineno}:{nm}:the move stays inside [0, L-bsz]", "call-pre", self.can_move(f), node.lineno)
         for lab, c in me_inv(f, self.begin).items():
             cx.oblige(f"call-pre@{node.lineno}:{nm}:class-invariant:{lab}", "call-pre", c, node.lineno)
